@@ -10,7 +10,12 @@ Tie:  H4 — the real parse_pattern_list / match_pattern_list (real regex / glob
       -mnop-mcount run under the snapshot's `uftrace record -P … -U … -Z n`, and
       statically instrumented programs (-pg -mfentry with PLT / GOT calls, with and
       without -fcf-protection; -pg -mrecord-mcount) run under `uftrace record -U …`;
-      the tracee dumps its maps, its own function bytes and call counters at exit.
+      the tracee dumps its maps, its own function bytes and call counters at exit;
+      module naming (`run_e2e_libs`): an executable + a DT_NEEDED library + a dlopen()ed
+      library installed as real file + links (+ SONAME), selected by every spelling of
+      `@MODULE`; expectation = MODULE is a prefix of the real base name or of the SONAME.
+      This family needs neither harness nor model: it also runs when the harness does
+      not build against the tree under test (reported as harness-build-failed).
 Unpatch path (-U): the model has two pre-fix flags (`fixed <unpatch_func> <unpatch_fentry_func>`,
       findings C14-UNPATCH-ANY-CALL and C14-UNPATCH-ENDBR).  The check runs the model in all four
       variants, takes the one the tree agrees with, and evaluates the -U clause of the property with
@@ -1131,8 +1136,323 @@ def run_e2e(ctx, hexe, uft, failures, cov, model_ok=True, only=None, present=())
     return runs
 
 
+# ---------------------------------------------------------------- e2e: module naming (shared libraries)
+# A shared library has several names: the real file (what /proc/self/maps and the session map show), the links it is
+# reached through (the -l link, the SONAME link, a plugin link handed to dlopen) and its DT_SONAME.  `PATTERN@MODULE`
+# is documented (match_pattern_module / match_pattern_list) to select a module when MODULE is a prefix of the base
+# name of the real file or of the SONAME.  This family installs libraries as real file + links, loads one through
+# DT_NEEDED and one through dlopen(), names them by every spelling and compares the traced set with that rule.  It
+# needs neither the harness nor the model (the match relation of the few pattern shapes used is evaluated here).
+LIB_STEMS = ["qa", "calc", "zed", "plug", "gamma", "hk"]
+LIB_VERS = ["1.2", "2.31", "0.9.1", "3.0", "10"]
+LIB_FUNCS = ["add", "mul", "run", "aux", "step", "fold"]
+
+LIB_SRC = """#include <stdio.h>
+#define NI __attribute__((noinline, noclone))
+static unsigned long cnt[%(n)d];
+volatile unsigned %(p)s_sink;
+%(bodies)s
+void %(p)s_dump(void)
+{
+	static const char *names[] = { %(names)s };
+	for (int i = 0; i < %(n)d; i++)
+		fprintf(stderr, "CNT %%s %%lu\\n", names[i], cnt[i]);
+}
+"""
+
+LIBMAIN_SRC = """#include <stdio.h>
+#include <stdlib.h>
+#include <dlfcn.h>
+#define NI __attribute__((noinline, noclone))
+static unsigned long cnt[%(n)d];
+volatile unsigned m_sink;
+%(protos)s
+%(bodies)s
+int main(int argc, char **argv)
+{
+	unsigned r = argc;
+	unsigned (*fn)(unsigned);
+	void (*dump)(void);
+	void *h;
+	static const char *names[] = { %(names)s };
+%(calls)s
+	h = dlopen("%(dlpath)s", RTLD_NOW);
+	if (!h) { fprintf(stderr, "dlopen: %%s\\n", dlerror()); return 3; }
+	fn = (unsigned (*)(unsigned))dlsym(h, "%(dlrun)s");
+	dump = (void (*)(void))dlsym(h, "%(dlp)s_dump");
+	if (!fn || !dump) return 4;
+	for (int i = 0; i < %(dlcalls)d; i++)
+		r += fn(r %% 9 + i);
+	for (int i = 0; i < %(n)d; i++)
+		fprintf(stderr, "CNT %%s %%lu\\n", names[i], cnt[i]);
+	%(needp)s_dump();
+	dump();
+	FILE *f = fopen("/proc/self/maps", "r");
+	char l[512];
+	while (f && fgets(l, sizeof l, f))
+		fprintf(stderr, "MAPS %%s", l);
+	if (f) fclose(f);
+	printf("result %%u\\n", r);
+	return 0;
+}
+"""
+
+
+def gen_lib_funcs(rng, p, exported_run=True):
+    """functions p_<x> of one module; the last one (p_run) calls the others"""
+    fs = rng.sample(LIB_FUNCS[:2] + LIB_FUNCS[3:], rng.randint(2, 4)) + ["run"]
+    names = ["%s_%s" % (p, f) for f in fs]
+    bodies = []
+    for i, f in enumerate(names[:-1]):
+        bodies.append("NI unsigned %s(unsigned x)\n{\n\tcnt[%d]++;\n\t%s_sink += x;\n\treturn x * %du + %d;\n}"
+                      % (f, i, p, rng.randint(3, 99), rng.randint(1, 9)))
+    body = ["NI unsigned %s(unsigned x)\n{\n\tcnt[%d]++;\n\tunsigned s = x;" % (names[-1], len(names) - 1)]
+    for f in names[:-1]:
+        for _ in range(rng.randint(1, 2)):
+            body.append("\ts += %s(s %% %d);" % (f, rng.randint(5, 50)))
+    body.append("\treturn s;\n}")
+    bodies.append("\n".join(body))
+    return names, "\n".join(bodies)
+
+
+def gen_lib_install(rng, stem):
+    """how one library is installed: real file name, SONAME (or None), names of the links (chain link -> … -> real)"""
+    ver = rng.choice(LIB_VERS)
+    major = ver.split(".")[0]
+    style = rng.choice(["old", "old", "modern", "nosoname", "plain-soname"])
+    if style == "old":              # glibc before 2.34: libc-2.31.so <- libc.so.6
+        real, soname = "lib%s-%s.so" % (stem, ver), "lib%s.so.%s" % (stem, major)
+    elif style == "modern":         # libfoo.so.1.2 <- libfoo.so.1 <- libfoo.so
+        real, soname = "lib%s.so.%s.7" % (stem, ver), "lib%s.so.%s" % (stem, major)
+    elif style == "nosoname":
+        real, soname = "lib%s-%s.so" % (stem, ver), None
+    else:                           # SONAME is not the name of any file
+        real, soname = "lib%s_impl.so" % stem, "lib%s.so" % stem
+    return {"real": real, "soname": soname, "devlink": "lib%s.so" % stem, "style": style}
+
+
+def lib_spellings(rng, inst, link):
+    """module spellings a user may write for this library"""
+    real, soname = inst["real"], inst["soname"]
+    out = [real, real[:-3] if real.endswith(".so") else real.rsplit(".", 1)[0], link, link.split(".so")[0]]
+    if soname:
+        out += [soname, soname[:-1] + "9"]
+    cp = os.path.commonprefix([real, soname or link])
+    if len(cp) > 3:
+        out.append(cp)
+    out += [real[:-1] + "x", real[3:], real[:len(real) // 2 + 2]]
+    return [s for s in out if len(s) > 3 and s != "lib"]
+
+
+def lib_module_selected(module, real, soname):
+    return real.startswith(module) or (soname is not None and soname.startswith(module))
+
+
+def lib_pattern_matches(ptype, patt, name):
+    if not any(c in ".?*+-^$|()[]{}" for c in patt):     # init_filter_pattern: no REGEX_CHARS -> strcmp
+        return name == patt
+    if ptype == "glob":
+        import fnmatch
+        return fnmatch.fnmatchcase(name, patt)
+    return re.search(patt, name) is not None
+
+
+def gen_lib_case(rng, idx):
+    stems = rng.sample(LIB_STEMS, 2)
+    need, dl = [gen_lib_install(rng, s) for s in stems]
+    if need["style"] == "plain-soname" and rng.random() < 0.5:
+        need = gen_lib_install(rng, stems[0])
+    # the dlopen()ed one is reached through: its real name, its SONAME link, or a plugin link with an unrelated name
+    dl["open_by"] = rng.choice(["real", "soname-link", "plugin-link", "plugin-link"])
+    if dl["soname"] is None and dl["open_by"] == "soname-link":
+        dl["open_by"] = "plugin-link"
+    dl["plugin"] = "%s_plugin.so" % stems[1]
+    mods = []
+    for p, inst in (("m", None), (stems[0], need), (stems[1], dl)):
+        names, bodies = gen_lib_funcs(rng, p)
+        mods.append({"prefix": p, "names": names, "bodies": bodies, "inst": inst})
+    return {"idx": idx, "mods": mods, "flags": rng.choice([["-O1"], ["-O0"], ["-O1", "-fcf-protection=full"]]),
+            "dlcalls": rng.randint(1, 3)}
+
+
+def gen_lib_options(rng, case, exe_base, rot=None):
+    """1-4 ordered -P/-U options with @module spellings; the first one names a library (rot: walk through the
+    spellings of the two libraries systematically instead of drawing one)"""
+    ptype = rng.choice(["regex", "regex", "glob"])
+    mods = case["mods"]
+    opts = []
+    for k in range(rng.choice([1, 2, 2, 3, 4])):
+        mi = rng.choice([0, 1, 1, 2, 2]) if k else rng.choice([1, 2]) if rot is None else 1 + rot % 2
+        m = mods[mi]
+        if mi == 0:
+            module = rng.choice([None, exe_base, exe_base[:4]])
+        else:
+            inst = m["inst"]
+            link = inst["devlink"] if mi == 1 else (inst["plugin"] if inst.get("open_by") == "plugin-link" else inst["devlink"])
+            sp = lib_spellings(rng, inst, link)
+            module = rng.choice(sp) if k or rot is None else sp[(rot // 2) % len(sp)]
+        r = rng.random()
+        if r < 0.35:
+            patt = rng.choice(m["names"])
+        elif ptype == "regex":
+            patt = rng.choice([".", "_run$", "_a", "^%s_" % m["prefix"], "_(add|mul|run)$", "^[a-z]+_[a-m]", "u"])
+        else:
+            patt = rng.choice(["*", "*_run", "*_a*", "%s_*" % m["prefix"], "*_[a-m]*", "?*_???", "*u*"])
+        neg = k > 0 and rng.random() < 0.35
+        opts.append(("U" if neg else "P", patt if module is None else "%s@%s" % (patt, module)))
+    return ptype, opts
+
+
+def run_e2e_libs(ctx, uft, failures, cov, only=None):
+    """failures: (name, replay obj, what, is_monitor)"""
+    ncase = 1 if only else 4 if ctx.tier == "quick" else 12
+    ncfg = 1 if only else 6 if ctx.tier == "quick" else 10
+    wd0 = os.path.join(ctx.scratch, "e2e-libs")
+    runs = selected = lib_selected = 0
+    sigs = set()
+    samples = []
+    nfail0 = len(failures)
+    for ci in range(ncase):
+        case = only["lib_case"] if only else gen_lib_case(ctx.rng, ci)
+        wd = os.path.join(wd0, "c%d" % ci)
+        os.makedirs(wd, exist_ok=True)
+        flags = case["flags"]
+        mods = case["mods"]
+        exe = os.path.join(wd, "lp%d-main" % ci)
+        ok = True
+        for m in mods[1:]:
+            inst = m["inst"]
+            src = os.path.join(wd, m["prefix"] + ".c")
+            open(src, "w").write(LIB_SRC % {"n": len(m["names"]), "p": m["prefix"], "bodies": m["bodies"],
+                                            "names": ", ".join('"%s"' % f for f in m["names"])})
+            cmd = ["gcc", "-w", "-fPIC", "-shared", "-fpatchable-function-entry=5"] + flags + \
+                  (["-Wl,-soname," + inst["soname"]] if inst["soname"] else []) + ["-o", os.path.join(wd, inst["real"]), src]
+            if C.sh(cmd).returncode != 0:
+                ok = False
+            links = [inst["devlink"]] + ([inst["soname"]] if inst["soname"] else []) + \
+                    ([inst["plugin"]] if inst.get("plugin") else [])
+            for l in links:
+                p = os.path.join(wd, l)
+                if l != inst["real"] and not os.path.lexists(p):
+                    os.symlink(inst["real"], p)
+        need, dl = mods[1]["inst"], mods[2]["inst"]
+        dlfile = {"real": dl["real"], "soname-link": dl["soname"], "plugin-link": dl["plugin"]}[dl["open_by"]]
+        m0 = mods[0]
+        calls = "\n".join("\tr += %s(r %% 13 + %d);" % (f, i) for i, f in enumerate(m0["names"])) + \
+                "\n\tr += %s(r %% 11);" % mods[1]["names"][-1]
+        msrc = os.path.join(wd, "main.c")
+        open(msrc, "w").write(LIBMAIN_SRC % {
+            "n": len(m0["names"]), "protos": "unsigned %s(unsigned);\nvoid %s_dump(void);" % (mods[1]["names"][-1], mods[1]["prefix"]),
+            "bodies": m0["bodies"], "names": ", ".join('"%s"' % f for f in m0["names"]), "calls": calls,
+            "dlpath": "./" + dlfile, "dlrun": mods[2]["names"][-1], "dlp": mods[2]["prefix"], "dlcalls": case["dlcalls"],
+            "needp": mods[1]["prefix"]})
+        r = C.sh(["gcc", "-w", "-fpatchable-function-entry=5"] + flags +
+                 [msrc, "-o", exe, "-L" + wd, "-l" + mods[1]["prefix"], "-Wl,-rpath,$ORIGIN", "-ldl"])
+        if r.returncode != 0 or not ok:
+            ctx.notes.append("e2e-libs build failed: %s" % r.stdout[-300:])
+            continue
+        nrc, nout, nerr, nto = C.run_bounded([exe], 20, cwd=wd)
+        if nrc != 0:
+            ctx.notes.append("e2e-libs native run failed rc=%d: %s" % (nrc, nerr[-300:]))
+            continue
+        # what the loader really mapped (the real file names)
+        mapped = {os.path.basename(l.split()[-1]) for l in nerr.split("\n") if l.startswith("MAPS ") and "/" in l}
+        for m in mods[1:]:
+            if m["inst"]["real"] not in mapped:
+                ctx.notes.append("e2e-libs: %s not among the mapped files" % m["inst"]["real"])
+        exe_base = os.path.basename(exe)
+        for ki in range(ncfg):
+            if len(failures) - nfail0 >= 3:
+                break
+            ptype, opts = (only["match"], [tuple(o) for o in only["options"]]) if only else gen_lib_options(ctx.rng, case, exe_base, rot=ci * ncfg + ki)
+            data = os.path.join(wd, "d-%d" % ki)
+            cmd = ["timeout", "20", uft, "record", "--libmcount-path=" + os.path.join(ctx.src, "libmcount"),
+                   "--no-libcall", "--no-event", "--match=" + ptype, "-d", data]
+            for o, p in opts:
+                cmd += ["-" + o, p]
+            cmd.append(exe)
+            rc, out, err, to = C.run_bounded(cmd, 30, cwd=wd)
+            runs += 1
+            for sm in glob.glob(os.path.join(data, "sid-*.map")):
+                sid = os.path.basename(sm)[4:-4]
+                for shm in glob.glob("/dev/shm/uftrace-%s-*" % sid):
+                    try:
+                        os.unlink(shm)
+                    except OSError:
+                        pass
+            rep = {"kind": "e2e-libs", "lib_case": case, "match": ptype, "options": opts, "cmd": " ".join(cmd), "cwd": wd,
+                   "install": {m["prefix"]: dict(m["inst"]) for m in mods[1:]}, "dlopen_path": "./" + dlfile}
+            if to or rc != 0 or out != nout:
+                failures.append(("e2e-libs-output", rep, "program output under uftrace differs from native (rc=%d%s): %r vs %r"
+                                 % (rc, ", timed out" if to else "", out[-200:], nout[-200:]), True))
+                continue
+            called = {}
+            for l in err.split("\n"):
+                t = l.split()
+                if l.startswith("CNT ") and len(t) == 3:
+                    called[t[1]] = int(t[2])
+            rc2, rout, rerr, _ = C.run_bounded(["timeout", "30", uft, "report", "-d", data, "--no-pager", "-f", "call"], 40)
+            traced = {}
+            for l in rout.split("\n"):
+                t = l.split()
+                if len(t) == 2 and t[0].isdigit():
+                    traced[t[1]] = int(t[0])
+            # the property's reference: per module, the last option whose @module selects the module and whose pattern
+            # matches the function decides
+            items = []
+            for o, p in opts:
+                patt, _, module = p.partition("@")
+                items.append((o == "P", patt, module if "@" in p else exe_base))
+            bad = None
+            expect_all = {}
+            for mi, m in enumerate(mods):
+                real = exe_base if mi == 0 else m["inst"]["real"]
+                soname = None if mi == 0 else m["inst"]["soname"]
+                # the dump helper of a library and main() are patchable functions like the others, called once
+                for f in m["names"] + (["main"] if mi == 0 else ["%s_dump" % m["prefix"]]):
+                    called.setdefault("main" if mi == 0 else "%s_dump" % m["prefix"], 1)
+                    v = "0"
+                    for pos, patt, module in items:
+                        if lib_module_selected(module, real, soname) and lib_pattern_matches(ptype, patt, f):
+                            v = "+" if pos else "-"
+                    expect_all[f] = v
+                    got, n = traced.get(f, 0), called.get(f)
+                    sigs.add((mi, m["inst"]["style"] if mi else "exe", m["inst"].get("open_by") if mi == 2 else None, v))
+                    if n is None:
+                        bad = bad or "no call counter for %s in the tracee's dump" % f
+                    elif v == "+" and got != n:
+                        bad = bad or ("function %s of %s (SONAME %s%s) is selected by the last matching option but was called %d "
+                                      "times and traced %d times" % (f, real, soname, ", dlopen(./%s)" % dlfile if mi == 2 else "",
+                                                                     n, got))
+                    elif v != "+" and got:
+                        bad = bad or ("function %s of %s (SONAME %s) is not selected (verdict %s) but has %d records"
+                                      % (f, real, soname, v, got))
+                    if v == "+":
+                        selected += 1
+                        lib_selected += mi > 0
+            for extra in sorted(set(traced) - set(expect_all)):
+                bad = bad or "unexpected traced function %s" % extra
+            for l in err.split("\n"):
+                t = l.split()
+                if l.startswith("MAPS ") and len(t) >= 3 and "w" in t[2] and "x" in t[2]:
+                    bad = bad or "tracee mapping is writable and executable after patching: %s" % " ".join(t[1:])
+            if len(samples) < 3:
+                samples.append({"install": rep["install"], "dlopen": dlfile, "options": opts, "match": ptype,
+                                "expected": expect_all, "traced": traced})
+            if bad:
+                rep["expected"] = expect_all
+                rep["traced"] = traced
+                rep["called"] = called
+                rep["report"] = rout[-1500:]
+                failures.append(("e2e-libs", rep, bad, True))
+    cov.update({"e2e_lib_runs": runs, "e2e_lib_selected_function_instances": selected,
+                "e2e_lib_selected_in_libraries": lib_selected, "e2e_lib_distinct_signatures": len(sigs),
+                "e2e_lib_samples": samples})
+    return runs
+
+
 # ---------------------------------------------------------------- driver
-COMBOS = [(1, 1), (1, 0), (0, 1), (0, 0)]     # model variants `fixed <unpatch_func> <unpatch_fentry_func>`, repaired first
+COMBOS =[(1, 1), (1, 0), (0, 1), (0, 0)]     # model variants `fixed <unpatch_func> <unpatch_fentry_func>`, repaired first
 FINDINGS = {
     "anycall": {
         "id": "C14-UNPATCH-ANY-CALL", "witness": "c14_prefix_unpatch_anycall_witness",
@@ -1258,6 +1578,22 @@ def run(ctx):
     hexe, okc, log = build_harness(ctx)
     if not okc:
         C.violation(ctx, "build", {"kind": "harness-build-failed", "log": log[-3000:]}, True)
+        # the harness calls static functions of libmcount/dynamic.c; a tree that renames them cannot be driven through
+        # it, but the end-to-end family that needs neither harness nor model still looks for a concrete failing input
+        okm, mlog = ctx.make()
+        uft = os.path.join(ctx.src, "uftrace")
+        cov, fails = {}, []
+        if not okm or not os.path.exists(uft):
+            C.violation(ctx, "make", {"kind": "uftrace-build-failed", "log": mlog[-3000:]}, True)
+        else:
+            runs = run_e2e_libs(ctx, uft, fails, cov)
+            for k, (name, rep, what, is_mon) in enumerate(fails[:3]):
+                C.violation(ctx, "%s-%d" % (name, k), dict(rep, what=what, kind="property-violated-on-implementation"),
+                            no_failing_input=not is_mon)
+            ctx.coverage.update({"evaluations": runs, "distinct_nontrivial": cov.get("e2e_lib_distinct_signatures", 0),
+                                 "rule": "harness did not build against this tree: only the e2e module-naming family ran",
+                                 "samples": cov.get("e2e_lib_samples", [])[:2], "exhaustive": False})
+            ctx.coverage.update(cov)
         return C.finish(ctx)
 
     quick = ctx.tier == "quick"
@@ -1376,6 +1712,13 @@ def run(ctx):
                 monitor_fail += 1
             else:
                 disagree += 1
+        # module naming: libraries installed as real file + links (+ SONAME), DT_NEEDED and dlopen()ed
+        lib_fail = []
+        e2e_runs += run_e2e_libs(ctx, uft, lib_fail, cov)
+        for name, rep, what, is_mon in lib_fail:
+            failures.append((name + "-%d" % len(failures), dict(rep, what=what, kind="property-violated-on-implementation"),
+                             what, is_mon))
+            monitor_fail += 1
 
     # genuine defects of the unpatch path that this tree still has (implementation = pre-fix model)
     report_findings(ctx, present, finding_hits, combo, combo_dis)
@@ -1393,7 +1736,7 @@ def run(ctx):
                 break
     ctx.coverage.update({
         "evaluations": len(cases) + e2e_runs,
-        "distinct_nontrivial": len(distinct) + cov.get("e2e_distinct_signatures", 0),
+        "distinct_nontrivial": len(distinct) + cov.get("e2e_distinct_signatures", 0) + cov.get("e2e_lib_distinct_signatures", 0),
         "rule": "pl: random ordered -P/-U lists (0-8 items; simple/regex/glob; optional @module incl. prefix, empty and "
                 "'@'-containing modules; '!'-prefixed names) x 1-8 symbol names x libname/soname; "
                 "pf: (module type x min size x symbol size x prologue kind {4 NOP patterns, endbr64+NOP, one-bit near "
@@ -1407,7 +1750,11 @@ def run(ctx):
                 "slots before / behind the code segment, statically instrumented functions, mprotect fault injection) through "
                 "the real do_dynamic_update + freeze_dynamic_update; e2e: generated C programs x gcc flag sets (patchable, "
                 "nop-mcount, -pg -mfentry PIE/no-PIE x CET, -pg -mrecord-mcount; an uninstrumented function that begins with "
-                "its own call) x random ordered -P/-U/-Z under uftrace record. "
+                "its own call) x random ordered -P/-U/-Z under uftrace record; e2e-libs: executable + a DT_NEEDED library + a "
+                "dlopen()ed library, each installed as real file + links in one of four naming styles (libx-1.2.so <- libx.so.1, "
+                "libx.so.1.2.7 <- libx.so.1, no SONAME, SONAME naming no file; dlopen by real name / SONAME link / unrelated "
+                "plugin link) x 1-4 ordered -P/-U PATTERN@MODULE with MODULE spelled as real name, real name without suffix, "
+                "link name, SONAME, common prefix and near misses; expectation = prefix of the real base name or of the SONAME. "
                 "distinct = distinct (kind, type, prologue kind, return code, size-rule side) / verdict vectors / outputs",
         "cases_by_kind": kinds, "corpus_cases": ncorpus, "patch_return_codes": outcomes,
         "model_code_disagreements": disagree, "monitor_failures_on_impl": monitor_fail,
@@ -1434,6 +1781,18 @@ def replay(ctx, path):
     r = json.load(open(path))
     print(json.dumps({k: v for k, v in r.items() if k not in ("source", "stderr")}, indent=1)[:6000])
     ctx.snapshot()
+    if r.get("lib_case"):
+        okm, mlog = ctx.make()
+        if not okm:
+            print(mlog[-2000:])
+            return 2
+        fails, cov = [], {}
+        run_e2e_libs(ctx, os.path.join(ctx.src, "uftrace"), fails, cov, only=r)
+        for name, rep, what, is_mon in fails:
+            print("STILL FAILING (property): %s" % what)
+        if not fails:
+            print("no failure on this tree")
+        return 1 if fails else 0
     hexe, okc, log = build_harness(ctx)
     if not okc:
         print(log)
